@@ -81,6 +81,7 @@ def check(program: Program, run: Run) -> None:
     run.rule("R1 every name hole is Quoted with a quote expression built from ctx.quote_char / ctx.alias_quote_char")
     run.rule("R2 definition-site and reference-site quote characters are equal under every shipped SQL_CONTEXT")
     run.rule("R3 the quoted text has the delimiter doubled (escape)")
+    run.rule("R4 every row-source slot (FROM item, UPDATE target, joined item) writes the table's alias exactly once: column qualifiers refer to it")
     fsk = function_skeletons(program)
     n_sites = 0
     raw_seen = set()
@@ -158,3 +159,46 @@ def check(program: Program, run: Run) -> None:
         fq = program.func("utils.format_quotes")
         run.finding("C07/unescaped-delimiter:utils.format_quotes", f"no identifier emission doubles the delimiter ({unescaped} site paths go through format_quotes unescaped): a name containing the quote character ends the identifier early (\"c\"d\")",
                     where=fq.loc(), rule="R3")
+
+    # ---- R4: Field/Star qualify by `table.alias` whenever the table has one (C11/R2), whatever the context; the
+    # alias therefore has to be *defined* at the slot that introduces the table as a row source.
+    from ..skel import BUILDER_CLASSES, count_marker, kind_states, recv_path, root_attr
+    from ..symex import walk_parts
+    from .c12 import MARK, peel
+    tbl = program.cls("Table")
+    SOURCE_SLOTS = {"_from": "FROM item", "_update_table": "UPDATE target", "item": "joined item"}
+    seen4 = {}
+    owners = [(program.cls(bn), dict(attrs), kind) for bn in BUILDER_CLASSES for kind, attrs in kind_states(program).items() if kind in ("SELECT", "UPDATE", "DELETE")]
+    owners += [(program.cls(n), {}, "JOIN") for n in ("Join", "JoinOn", "JoinUsing")]
+    for oc, attrs, kind in owners:
+        sk, _ = render(program, oc, attrs=attrs)
+        for part, conds, in_rep in walk_parts(sk):
+            if not (isinstance(part, SlotP) and part.method == "get_sql" and isinstance(part.ctx, CtxV)):
+                continue
+            rp = recv_path(part.recv)
+            ra = root_attr(rp)
+            if ra not in SOURCE_SLOTS or (kind == "JOIN") != (ra == "item"):
+                continue
+            wa = part.ctx.fields["with_alias"]
+            vals = [wa] if isinstance(wa, Const) else ([Const(False), Const(True)] if isinstance(wa, (Inh, InhOr)) else None)
+            site = f"{part.src[0] if part.src else oc.qualname}:{ra}"
+            if vals is None:
+                raise AnalysisError(f"unsupported construct: with_alias at source slot {site} is {show(wa)[:60]}")
+            for v in vals:
+                key = (site, v.value)
+                if key in seen4:
+                    continue
+                tsk, _ = render(program, tbl, attrs={"alias": Const(MARK)}, ctx=part.ctx.with_(with_alias=v))
+                lo, hi = count_marker(peel(tsk), MARK)
+                ok = lo == hi == 1
+                seen4[key] = ok
+                run.ob("C07/R4 row-source slot defines the table's alias exactly once", f"{site}@with_alias={v.value}", ok, detail=f"alias occurrences (min,max)=({lo},{hi})",
+                       where=f"{part.src[2]}:{part.src[1]}" if part.src else "")
+                if not ok:
+                    run.finding(f"C07/source-alias-{'undefined' if hi == 0 or lo == 0 else 'duplicated'}:{site}",
+                                f"{site}: the {SOURCE_SLOTS[ra]} is rendered with with_alias={v.value}, under which Table.get_sql writes the table's alias {lo}..{hi} times; "
+                                "column references are qualified by that alias regardless, so they name a correlation that the statement never defines",
+                                where=f"{part.src[2]}:{part.src[1]}" if part.src else "", rule="R4")
+    run.analysed["source_slots"] = len(seen4)
+    if len(seen4) < 3:
+        raise AnalysisError(f"instance count below floor: source slots {len(seen4)}")
